@@ -184,7 +184,9 @@ STRICT_OFF = re.compile(rb"^([+-])(\d{2}):?(\d{2})$")
 def strict_expiry(to: bytes, off: bytes):
     """instant of a strictly formatted `to` at a strictly formatted offset, else None (the lenient
     forms chrono also accepts are outside the oracle: it then abstains)"""
-    m, o = STRICT_TO.match(to), STRICT_OFF.match(off)
+    # white space in front of the year and behind the seconds (inside the quotes) is skipped by the parser: the
+    # numeric fields skip leading white space and the blank of the format in front of %z matches any run of it
+    m, o = STRICT_TO.match(to.strip(b" \t\n\r")), STRICT_OFF.match(off)
     if not m or not o:
         return "abstain" if (not looks_malformed(to, off)) else None
     y, mo, d, h, mi, s = (int(x) for x in m.groups())
